@@ -7,7 +7,9 @@ import PMV.Gen.EventPaths
    request : (c18 (init shapeless varr mrep hasDerivs ro) step …)
    step    : (q antimask|corners|slicer|wod|count|unshrink) | (q shrink touch fill)
            | (m NAME IDX (varr mrep hasDerivs ro) ((query …) …))      a path of the REGENERATED table
-           | (x (event …) (varr mrep hasDerivs ro) ((query …) …))      explicit events (a mutator that raised mid-path)
+           | (mp NAME IDX K (varr mrep hasDerivs ro) ((query …) …))    the first K events of a table path: an exception
+                                                                       left the mutator at that `mayRaise` point
+           | (x (event …) (varr mrep hasDerivs ro) ((query …) …))      explicit events (any other mutator that raised mid-path)
    answer  : one item per step: (keysOn wodShares ok keysOff) where keysOn/keysOff = cache keys after the step
              with the cache enabled / disabled, wodShares = T|F|- (the cached wod shares the parent's ndarray),
              ok = T|F (every cached entry equals its recomputation) or - once an `x` step has been executed. -/
@@ -73,6 +75,10 @@ def parseStep : Sx → Option DStep
   | .list (.atom "q" :: rest) => (parseQuery rest).map fun q => .th (.query q)
   | .list [.atom "m", .atom name, idx, post, fills] => do
     some (.th (.mutate name (← idx.toNat?) (← parseFacts post) (← parseFills fills)))
+  | .list [.atom "mp", .atom name, idx, k, post, fills] => do
+    -- the prefix of a table path that an exception cut off at its k-th event (a `mayRaise` point)
+    let es ← Table.path PMV.Gen.EventPaths.table name (← idx.toNat?)
+    some (.th (.events (es.take (← k.toNat?)) (← parseFacts post) (← parseFills fills)))
   | .list [.atom "x", .list es, post, fills] => do
     some (.explicit (← es.mapM parseEvent) (← parseFacts post) (← parseFills fills))
   | _ => none
